@@ -14,6 +14,7 @@ import (
 	"syscall"
 	"time"
 
+	etcdRaft "github.com/coreos/etcd/raft"
 	"github.com/marekgalovic/anndb"
 	"github.com/marekgalovic/anndb/storage/raft"
 
@@ -27,6 +28,11 @@ import (
 //	                                                snapshot.trigger, snapshot.done, snapshotInstalled)
 //	VERIF_KILL_DELAY=<duration>                     the ready-loop that reached the kill point pauses that long before the
 //	                                                signal is sent (other goroutines, e.g. replies on their way out, run on)
+//	VERIF_KILL_ASYNC=<duration>                     instead of holding the loop, the signal is sent from another goroutine a
+//	                                                seeded part of that duration later while the loop goes on (the process
+//	                                                dies in the middle of whatever the loop does next, e.g. inside a log write)
+//	                                                the point beforeSaveSnapshot is beforeSave of a Ready that carries a snapshot
+//	VERIF_DUMP_ITEMS=0                              leave the items out of the dump (sizes, raft status and durable views only)
 //	VERIF_KILL_ARM=signal                           count the hits only from the first SIGUSR2 on
 //	VERIF_SNAPSHOT_EVERY=<n>                        snapshot + compact a group after every n entries it applied
 //	VERIF_DUMP=<path>                               on SIGUSR1 write partitions, catalogue and address book as JSON
@@ -61,6 +67,7 @@ func verifInstall(server *anndb.Server) {
 	}
 	snapEvery, _ := strconv.ParseUint(os.Getenv("VERIF_SNAPSHOT_EVERY"), 10, 64)
 	killDelay, _ := time.ParseDuration(os.Getenv("VERIF_KILL_DELAY"))
+	killAsync, _ := time.ParseDuration(os.Getenv("VERIF_KILL_ASYNC"))
 
 	if snapEvery > 0 {
 		raft.VerifHooks.SnapC = func(nodeId uint64, groupId uuid.UUID) <-chan uint64 {
@@ -86,6 +93,11 @@ func verifInstall(server *anndb.Server) {
 				}
 			}
 			kill := false
+			if point == "beforeSave" && killPoint == "beforeSaveSnapshot" && len(args) > 0 {
+				if rd, ok := args[0].(*etcdRaft.Ready); ok && !etcdRaft.IsEmptySnap(rd.Snapshot) {
+					point = "beforeSaveSnapshot"
+				}
+			}
 			if armed && killAt > 0 && point == killPoint {
 				isZero := uuid.Equal(groupId, uuid.Nil)
 				if killGroup == "any" || (killGroup == "zero" && isZero) || (killGroup == "partition" && !isZero) {
@@ -96,6 +108,14 @@ func verifInstall(server *anndb.Server) {
 			mu.Unlock()
 			if kill {
 				fmt.Fprintf(os.Stderr, "VERIF-KILL group=%s point=%s hit=%d\n", groupId, point, killAt)
+				if killAsync > 0 {
+					d := time.Duration(uint64(time.Now().UnixNano()) % uint64(killAsync))
+					go func() {
+						time.Sleep(d)
+						syscall.Kill(os.Getpid(), syscall.SIGKILL)
+					}()
+					return
+				}
 				if killDelay > 0 {
 					time.Sleep(killDelay)
 				}
@@ -123,6 +143,27 @@ type verifDumpItem struct {
 
 type verifDumpRaft struct {
 	Term, Commit, Applied, Lead uint64
+	// what the group's log store holds (read through the store): hard state, snapshot index, first and last index
+	DurableTerm, DurableVote, DurableCommit, SnapshotIndex, FirstIndex, LastIndex uint64
+	DurableErr                                                                    string
+}
+
+func verifDurable(g *raft.RaftGroup, out *verifDumpRaft) {
+	w := g.VerifWAL()
+	if w == nil {
+		return
+	}
+	hs, _, err := w.InitialState()
+	if err != nil {
+		out.DurableErr = err.Error()
+		return
+	}
+	out.DurableTerm, out.DurableVote, out.DurableCommit = hs.Term, hs.Vote, hs.Commit
+	if snap, err := w.Snapshot(); err == nil {
+		out.SnapshotIndex = snap.Metadata.Index
+	}
+	out.FirstIndex, _ = w.FirstIndex()
+	out.LastIndex, _ = w.LastIndex()
 }
 
 type verifDumpPartition struct {
@@ -165,8 +206,11 @@ func verifDump(server *anndb.Server, path string) {
 				if g, ok := ds.VerifPartitionRaft(pid).(*raft.RaftGroup); ok && g != nil {
 					st := g.VerifStatus()
 					p.Raft = &verifDumpRaft{Term: st.Term, Commit: st.Commit, Applied: st.Applied, Lead: st.Lead}
+					verifDurable(g, p.Raft)
 				}
-				if idx != nil {
+				if idx != nil && os.Getenv("VERIF_DUMP_ITEMS") == "0" {
+					p.Len = uint64(idx.Len())
+				} else if idx != nil {
 					d := idx.VerifDump()
 					p.Len = d.Len
 					for id, v := range d.Vertices {
